@@ -7,6 +7,7 @@ package main
 
 import (
 	"encoding/json"
+	"flag"
 	"fmt"
 	"strings"
 
@@ -92,6 +93,9 @@ type Case struct {
 	ID     uint64  `json:"id"`
 	Leaf   Leaf    `json:"leaf"`
 	Frames []Frame `json:"frames"` // outermost first
+	// Exact: compare every observable with the model, also the ones the property does not name
+	// (harness flag --exact; off in checks/C19.json)
+	Exact bool `json:"exact,omitempty"`
 }
 
 // ---- Gallina printing ----
@@ -206,8 +210,9 @@ func (o Obs) coq() string {
 }
 
 type runner struct {
-	s  *hx.Sink
-	id uint64
+	s     *hx.Sink
+	id    uint64
+	exact bool
 }
 
 func (r *runner) observe(err error, stage string) (res Obs) {
@@ -225,7 +230,9 @@ func (r *runner) observe(err error, stage string) (res Obs) {
 	}
 	code := ge.GRPCStatusCode(err)
 	if int(code) >= len(codeNames) {
-		r.s.DirectViolation(r.id, "GRPCStatusCode outside the 17 codes at "+stage, int(code))
+		if r.exact {
+			r.s.DirectViolation(r.id, "GRPCStatusCode outside the 17 codes at "+stage, int(code))
+		}
 		code = codes.OK
 	}
 	res.Code = int(code)
@@ -296,7 +303,7 @@ func build(c Case) (err error, ok bool) {
 }
 
 func (r *runner) run(c Case) string {
-	r.id = c.ID
+	r.id, r.exact = c.ID, c.Exact
 	s := r.s
 	frames := make([]string, len(c.Frames))
 	embeds := 0
@@ -314,12 +321,12 @@ func (r *runner) run(c Case) string {
 	} else if c.Leaf.K == "G" {
 		s.Count("code:" + codeNames[c.Leaf.C])
 	}
-	head := fmt.Sprintf("mkCase %s (%s) %s", hx.N(c.ID), coqLeaf(c.Leaf), hx.List(frames))
+	head := fmt.Sprintf("mkCase %s %s (%s) %s", hx.N(c.ID), hx.Bool(c.Exact), coqLeaf(c.Leaf), hx.List(frames))
 	nilObs := Obs{Nil: true, From: -1}.coq()
 	e, ok := build(c)
 	if !ok {
 		s.Count("built:panic")
-		return fmt.Sprintf("%s false %s %s true true true %s true %s", head, nilObs, nilObs, nilObs, nilObs)
+		return fmt.Sprintf("%s false %s %s true true %s true %s true %s", head, nilObs, nilObs, nilObs, nilObs, nilObs)
 	}
 	s.Count("built:ok")
 	var w, w2, t, u error
@@ -344,6 +351,7 @@ func (r *runner) run(c Case) string {
 		u, _ = wire(status.Convert(e).Err())
 	}()
 	oe, ow, ot, ou := r.observe(e, "e"), r.observe(w, "GRPCWrap(e)"), r.observe(t, "transported"), r.observe(u, "transported without GRPCWrap")
+	ow2 := r.observe(w2, "GRPCWrap(GRPCWrap(e))")
 	if same {
 		s.Count("wrap:as-is")
 	} else {
@@ -355,7 +363,7 @@ func (r *runner) run(c Case) string {
 		s.Count("extract:none")
 	}
 	s.Count("wcode:" + codeNames[ow.Code])
-	return fmt.Sprintf("%s true %s %s %s %s %s %s %s %s", head, oe.coq(), ow.coq(), hx.Bool(same), hx.Bool(idem), hx.Bool(msgkept),
+	return fmt.Sprintf("%s true %s %s %s %s %s %s %s %s %s", head, oe.coq(), ow.coq(), hx.Bool(same), hx.Bool(idem), ow2.coq(), hx.Bool(msgkept),
 		ot.coq(), hx.Bool(tsame), ou.coq())
 }
 
@@ -394,18 +402,21 @@ func leaves() []Leaf {
 }
 
 func main() {
+	exact := flag.Bool("exact", false, "compare every observable with the model, also the ones the property does not name")
 	fl := hx.ParseFlags()
 	s := hx.NewSink(fl, header(), "case")
-	r := &runner{s: s}
-	// assumption of the byte-level rendering: sentinel texts and code names contain no ESC byte
-	for i, c := range classes {
-		if strings.Contains(c.Error(), "\x1b") {
-			s.DirectViolation(0, "the text of a sentinel contains ESC", classNames[i])
+	r := &runner{s: s, exact: *exact}
+	if *exact {
+		// assumption of the byte-level rendering: sentinel texts and code names contain no ESC byte
+		for i, c := range classes {
+			if strings.Contains(c.Error(), "\x1b") {
+				s.DirectViolation(0, "the text of a sentinel contains ESC", classNames[i])
+			}
 		}
-	}
-	for k, n := range codeNames {
-		if codes.Code(k).String() != n {
-			s.DirectViolation(0, "code name differs from the model's", n)
+		for k, n := range codeNames {
+			if codes.Code(k).String() != n {
+				s.DirectViolation(0, "code name differs from the model's", n)
+			}
 		}
 	}
 	if fl.From != "" {
@@ -418,7 +429,7 @@ func main() {
 	id := uint64(0)
 	emit := func(l Leaf, fr []Frame) {
 		id++
-		c := Case{ID: id, Leaf: l, Frames: fr}
+		c := Case{ID: id, Leaf: l, Frames: fr, Exact: *exact}
 		s.Add(c, r.run(c), nontrivial(c))
 	}
 	thorough := fl.Tier == "thorough"
@@ -460,6 +471,31 @@ func main() {
 						fr[i].T = ""
 					} else {
 						fr[i].O = 0
+					}
+				}
+				emit(lf, fr)
+			}
+		}
+	}
+	// 1b. every ordered pair of texts at depth 2 (wrap/wrap, embed outside, embed inside), leaves rotating
+	all := leaves()
+	for i, t1 := range texts {
+		for j, t2 := range texts {
+			for k, sh := range [][]string{{"W", "W"}, {"E", "W"}, {"W", "E"}} {
+				n++
+				lf := all[(i*len(texts)+j+k*7)%len(all)]
+				if lf.K == "G" && lf.C == 0 {
+					lf = all[n%len(classes)]
+				}
+				if lf.K != "S" {
+					lf.T = texts[markerFree[n%len(markerFree)]]
+				}
+				fr := []Frame{{K: sh[0], T: t1, O: n % len(objects)}, {K: sh[1], T: t2, O: n % len(objects)}}
+				for x := range fr {
+					if fr[x].K == "E" {
+						fr[x].T = ""
+					} else {
+						fr[x].O = 0
 					}
 				}
 				emit(lf, fr)
@@ -510,8 +546,10 @@ func main() {
 		emit(l, fr)
 	}
 	s.Close(fmt.Sprintf("exhaustive: 30 leaves (12 sentinels, status errors of all 17 codes, a class-less error) x all shapes of depth 0..%d "+
-		"(embed nowhere or at one position) x %d texts (the same text in every wrap; leaf messages rotate through the alphabet); "+
+		"(embed nowhere or at one position) x %d texts (the same text in every wrap; leaf messages rotate through the alphabet), and all ordered "+
+		"pairs of texts at depth 2; "+
 		"seeded: %d chains with mixed texts, depths up to %d, second embeds and embeds over texts that contain markers. Each case observes Is "+
 		"for all 12 classes, GRPCStatusCode, FromGRPCError and ExtractObject on e, GRPCWrap(e), the transported GRPCWrap(e) and the "+
-		"transported e. distinct = by content hash; non-trivial = non-empty wrapping context", maxd, len(texts), nrand, maxd+3), true)
+		"transported e; by default only the observables the property names decide (class after GRPCWrap and after transport, idempotence, "+
+		"object still extractable, non-OK codes never nil), with --exact every observable must equal the model's. distinct = by content hash; non-trivial = non-empty wrapping context", maxd, len(texts), nrand, maxd+3), true)
 }
